@@ -270,6 +270,10 @@ CASES = []
 for _shape in M.SHAPES:
     CASES.append(species_state_case(_shape, 2, "grid"))
 CASES.append(species_state_case("scalar", 1, "grid"))
+# comma-grouped keys written with blanks around the names ("e0, e1", " e1 ,e0"): each name of the group gets the value
+CASES.append(species_state_case("dict:e0+ e1", 2, "grid"))
+CASES.append(species_state_case("dict: e1 +e0,default", 2, "grid"))
+CASES.append(species_state_case("dict:e1+ e0 ", 2, "graph"))
 CASES.append(species_state_case("dict:e0,default", 2, "graph"))
 CASES.append(species_state_case("scalar", 1, "graph"))
 CASES.append(system_default_case(2, 2, "grid", ["dict:e0,default", "scalar"]))
